@@ -34,8 +34,8 @@ func HandleAuditShardRequest(bc blockchain.Blockchain, stream *quic.Stream) erro
 	if err != nil {
 		return err
 	}
-	if len(payload) < CE138RequestSize {
-		return fmt.Errorf("audit shard request too short")
+	if len(payload) != CE138RequestSize {
+		return fmt.Errorf("audit shard request has the wrong length")
 	}
 	erasureRoot := payload[:HashSize]
 	shardIndex := uint32(binary.LittleEndian.Uint16(payload[HashSize:CE138RequestSize]))
